@@ -11,12 +11,13 @@ case "$what" in
   *) git apply "$what" || { echo "cannot apply $what"; exit 2; } ;;
 esac
 cd /verif
+cp evidence/"$id".json /tmp/evidence_"$id".bak 2>/dev/null
 VERIF_SEED=$seed ./run.sh "$id" "$tier" > /tmp/mutant.out 2>&1
 rc=$?
 git -C /repo checkout -- .
 grep -E "^VIOLATION|^KNOWN|^INCONCLUSIVE|^C[0-9][0-9] tier" /tmp/mutant.out | cut -c1-220 | head -8
 echo "exit=$rc"
 # evidence was rewritten by a run on a modified tree: restore the committed one
-git -C /verif checkout -- evidence/"$id".json 2>/dev/null
+if [ -f /tmp/evidence_"$id".bak ]; then mv /tmp/evidence_"$id".bak evidence/"$id".json; else rm -f evidence/"$id".json; fi
 rm -f /tmp/mutant.out
 exit 0
